@@ -121,7 +121,7 @@ Catalog == <<
   C("US1", US1), C("US2", US2), C("US3", US3), C("US4", US4), C("US5", US5), C("US6", US6), C("US7", US7), C("US8", US8),
   C("UE1", UE1), C("UE2", UE2), C("UE3", UE3), C("UE4", UE4), C("UE5", UE5), C("UE6", UE6), C("UE7", UE7),
   C("UE8", UE8), C("UE9", UE9), C("UE10", UE10), C("UE11", UE11), C("UE12", UE12), C("UE13", UE13), C("UE14", UE14),
-  C("US9", US9), C("US10", US10), C("PE16", PE16), C("PS32", PS32)
+  C("US9", US9), C("US10", US10), C("PE16", PE16), C("PS32", PS32), C("V_unit_u8", V_unit_u8)
 >>
 
 CatIds == {Catalog[i].id : i \in DOMAIN Catalog}
